@@ -344,11 +344,107 @@ def check_map(case, rec=None):
     return fails
 
 
+# ------------------------------------------------------------------ mono-phase maps combined into one
+
+@st.composite
+def combinecases(draw):
+    n = draw(st.integers(2, 3))
+    voxels = [draw(deformations()) for _ in range(n)]
+    for v in voxels:
+        v["refkind"] = "cell"
+        v["U0"] = np.eye(3)
+    shape = (draw(st.integers(1, 2)), draw(st.integers(2, 5)), draw(st.integers(2, 5)))
+    mseed = draw(st.integers(0, 2 ** 31 - 1))
+    fill = draw(st.sampled_from([0.3, 0.6, 0.9]))
+    return dict(voxels=voxels, shape=shape, mseed=mseed, fill=fill)
+
+
+def check_combine(case, rec=None):
+    """TensorMap.from_combine_phases: wherever several inputs fill a voxel one of them wins, and everything stored for
+    that voxel (phase id, UBI, label) comes from the winner, so the strain is that of the winner's crystal with
+    respect to the winner's reference cell."""
+    from ImageD11.sinograms import tensor_map as tm
+    from ImageD11 import unitcell
+    shape = tuple(case["shape"])
+    rng = np.random.RandomState(case["mseed"] % (2 ** 32))
+    vox = case["voxels"]
+    built = [build(v) for v in vox]
+    maps, filled = [], []
+    for k, v in enumerate(vox):
+        f = rng.random_sample(shape) < case["fill"]
+        ubi = np.full(shape + (3, 3), np.nan)
+        ubi[f] = built[k][7]
+        ph = np.where(f, 0, -1)
+        lab = np.where(f, rng.randint(0, 3, shape), -1)
+        uc = unitcell.unitcell(v["cell"], "P")
+        uc.name = "phase%d" % k
+        ok, m = guard(tm.TensorMap, {"UBI": ubi, "phase_ids": ph, "labels": lab}, phases={0: uc})
+        if not ok:
+            return [exc_failure("TensorMap()", m)]
+        maps.append(m)
+        filled.append(f)
+    ok, cm = guard(tm.TensorMap.from_combine_phases, maps)
+    if not ok:
+        return [exc_failure("from_combine_phases", cm)]
+    fails = []
+    overlap = np.sum(filled, axis=0) >= 2
+    cph = np.asarray(cm.phase_ids)
+    cubi = np.asarray(cm.UBI)
+    for idx in np.ndindex(*shape):
+        owners = [k for k in range(len(maps)) if filled[k][idx]]
+        if not owners:
+            if cph[idx] != -1 or not np.isnan(cubi[idx]).all():
+                fails.append(fail("combine", "voxel %s is empty in every input but phase id %s in the combination" %
+                                  (idx, cph[idx]), what="empty"))
+                break
+            continue
+        w = int(cph[idx])
+        if w not in owners:
+            fails.append(fail("combine", "voxel %s: phase id %d, inputs filling it are %s" % (idx, w, owners),
+                              what="phase"))
+            break
+        if not np.array_equal(cubi[idx], built[w][7]):
+            fails.append(fail("combine", "voxel %s filled by inputs %s: phase id says input %d, the UBI stored is that of "
+                              "another input" % (idx, owners, w), what="ubi"))
+            break
+    if not fails:
+        ok, ec = guard(lambda: cm.eps_crystal)
+        if not ok:
+            fails.append(exc_failure("eps_crystal of the combined map", ec))
+        else:
+            ec = np.asarray(ec, float)
+            for idx in np.ndindex(*shape):
+                if cph[idx] < 0:
+                    continue
+                B0, U0, ubi0, lam, Q, S, R, _ = built[int(cph[idx])]
+                exp = seth_hill(lam, Q, 0.5)
+                err = np.abs(ec[idx] - exp).max()
+                if not err <= 1e-10 * (1 + np.abs(exp).max()):
+                    fails.append(fail("combine", "combined map, voxel %s (inputs %s): eps_crystal differs from the "
+                                      "closed form for phase %d by %g" %
+                                      (idx, [k for k in range(len(maps)) if filled[k][idx]], cph[idx], err), what="eps"))
+                    break
+        labs = np.asarray(cm.labels)
+        for k in range(len(maps)):
+            mine = cph == k
+            other = (cph >= 0) & ~mine
+            if mine.any() and other.any() and np.intersect1d(labs[mine], labs[other]).size:
+                fails.append(fail("combine", "grain labels of different phases collide in the combined map", what="labels"))
+                break
+    if rec is not None:
+        rec.case(dict(case, voxels=[dict(family=v["family"], cell=v["cell"], e=v["e"]) for v in vox]), bool(overlap.any()),
+                 ["combine", "overlap" if overlap.any() else "disjoint"])
+    return fails
+
+
 def run_shard(rec):
     quick = rec.tier == "quick"
     hyp_run(rec, "grain", deformations(), lambda c: check(c, rec), max_examples=150 if quick else 1500)
     hyp_run(rec, "map", mapcases(), lambda c: check_map(c, rec), max_examples=50 if quick else 400)
+    hyp_run(rec, "combine", combinecases(), lambda c: check_combine(c, rec), max_examples=30 if quick else 300)
 
 
 def replay(sub, case, rec):
+    if sub == "combine":
+        return check_combine(case, rec)
     return check_map(case, rec) if sub == "map" else check(case, rec)
